@@ -78,6 +78,8 @@ def main(tier):
     rep.attempt(bounds.check, rep, {'ec_dot_prod'}, 'EC', 33)
     import guardloop
     rep.attempt(guardloop.check, rep, 'EC', r'^erasure_code/.*dot_prod', 8)
+    import deadvdef
+    rep.attempt(deadvdef.check, rep, 'EC', r'^erasure_code/.*dot_prod', 900)
     import gfrows
     rep.attempt(gfrows.check_dot, rep, 33)
     import baseloops
